@@ -7,7 +7,7 @@ value the builder / signer produce, see C09) and every payload: the offsets repo
 `get_package_segment_offsets` are the lengths of the segments actually written before them.
 -/
 namespace RpmVerif.C16
-open RpmVerif.Hdr RpmVerif.Gen
+open RpmVerif.Hdr RpmVerif.Gen RpmVerif
 
 theorem writeHeader_length {h : Header} (wf : HeaderWF h) : (writeHeader h).length = h.size := by
   rw [writeHeader_eq]
@@ -84,6 +84,67 @@ theorem offsets_of_parsed {bs p} (hp : parsePackage bs = .ok p) :
     ∧ (writePackage p).drop (offsets p.md).hdr = writeHeader p.md.header ++ p.content := by
   obtain ⟨_, _, _, h4, h5, _⟩ := offsets_exact (parsed_wf hp) p.content
   exact ⟨h5, h4⟩
+
+/-! ### widths (audit a15 / c11): the arithmetic of the CODE, with the widths of its Rust types
+
+`offsets_fit_u64` above is a statement about the model's `Nat` sums. The three expressions below are scraped from
+header.rs into width-annotated terms (Gen/AllocSites.lean, Model/Width.lean: checked unsigned arithmetic, `as` truncates);
+the theorems say that for every pair of u32 intro fields no step overflows and the result is the model's number. A
+rewrite that multiplies before widening — `(num_entries * INDEX_ENTRY_SIZE) as u64` — produces a different term, for
+which the statement is false at `num_entries = 2^28` (the `example` below). -/
+
+/-- `Header::parse`'s `size_rest`, read with the widths of the Rust types: both u32 fields are widened BEFORE the
+multiplication and the addition, so the u64 result is the exact number of bytes `dl + 16·n` for every intro -/
+theorem size_rest_fits_u64 (dl n : Nat) (hd : dl < 4294967296) (hn : n < 4294967296) :
+    sizeRestW.eval (WExpr.envOf [dl, n]) = some (dl + n * INDEX_ENTRY_SIZE, 64) := by
+  have h1 : dl % 18446744073709551616 = dl := Nat.mod_eq_of_lt (by omega)
+  have h2 : n % 18446744073709551616 = n := Nat.mod_eq_of_lt (by omega)
+  have h3 : n * 16 < 18446744073709551616 := by omega
+  have h4 : dl + n * 16 < 18446744073709551616 := by omega
+  simp only [sizeRestW, WExpr.eval, WExpr.envOf, WExpr.bin, List.getD_cons_zero, List.getD_cons_succ,
+    Nat.reducePow, Nat.reduceMod, Nat.reduceLT, hd, hn, h1, h2, h3, h4, if_true, ies]
+
+/-- `Header::size` in the widths of the code: no step overflows, the u64 result is the model's `Header.size` -/
+theorem header_size_fits {h : Header} (wf : HeaderWF h) :
+    headerSizeW.eval (WExpr.envOf [h.dataSize, h.nEntries]) = some (h.size, 64) := by
+  have hd := wf.dlLt; have hn := wf.nLt
+  have h1 : h.dataSize % 18446744073709551616 = h.dataSize := Nat.mod_eq_of_lt (by omega)
+  have h2 : h.nEntries % 18446744073709551616 = h.nEntries := Nat.mod_eq_of_lt (by omega)
+  have h3 : h.nEntries * 16 < 18446744073709551616 := by omega
+  have h4 : 16 + h.nEntries * 16 < 18446744073709551616 := by omega
+  have h5 : 16 + h.nEntries * 16 + h.dataSize < 18446744073709551616 := by omega
+  simp only [headerSizeW, WExpr.eval, WExpr.envOf, WExpr.bin, List.getD_cons_zero, List.getD_cons_succ,
+    Nat.reducePow, Nat.reduceMod, Nat.reduceLT, hd, hn, h1, h2, h3, h4, h5, if_true, Header.size, ihs, ies]
+
+/-- `padding_required` in u32: `8 - dl % 8` cannot underflow, the result is the model's `sigPad` -/
+theorem padding_fits (dl : Nat) (hd : dl < 4294967296) :
+    paddingRequiredW.eval (WExpr.envOf [dl]) = some (sigPad dl, 32) := by
+  have h1 : dl % 8 < 4294967296 := by omega
+  have h2 : dl % 8 ≤ 8 := by omega
+  have h3 : 8 - dl % 8 < 4294967296 := by omega
+  have h4 : (8 - dl % 8) % 8 < 4294967296 := by omega
+  have e8 : ((8 : Nat) = 0) = False := by decide
+  simp only [paddingRequiredW, WExpr.eval, WExpr.envOf, WExpr.bin, List.getD_cons_zero,
+    Nat.reducePow, Nat.reduceLT, hd, h1, h2, h3, h4, e8, if_true, if_false, sigPad]
+
+/-- the offsets of `get_package_segment_offsets`, step by step in u64 (`LEAD_SIZE as u64 + size() + padding as u64 + size()`):
+each operand is the exact value of the theorems above, and the sums stay below 2^64 -/
+theorem offsets_steps_fit {m : Metadata} (wf : MetadataWF m) :
+    headerSizeW.eval (WExpr.envOf [m.signature.dataSize, m.signature.nEntries]) = some (m.signature.size, 64)
+    ∧ paddingRequiredW.eval (WExpr.envOf [m.signature.dataSize]) = some (sigPad m.signature.dataSize, 32)
+    ∧ headerSizeW.eval (WExpr.envOf [m.header.dataSize, m.header.nEntries]) = some (m.header.size, 64)
+    ∧ (offsets m).hdr = LEAD_SIZE + m.signature.size + sigPad m.signature.dataSize
+    ∧ (offsets m).payload = (offsets m).hdr + m.header.size
+    ∧ (offsets m).payload < 18446744073709551616 :=
+  ⟨header_size_fits wf.sig, padding_fits _ wf.sig.dlLt, header_size_fits wf.hdr, rfl, rfl, offsets_fit_u64 wf⟩
+
+/-! non-vacuity: the extreme intro fields, and what the u32-first product would do -/
+example : sizeRestW.eval (WExpr.envOf [4294967295, 4294967295]) = some (73014444015, 64) := by decide +kernel
+example : headerSizeW.eval (WExpr.envOf [0, 268435456]) = some (4294967312, 64) := by decide +kernel
+-- `(num_entries * INDEX_ENTRY_SIZE) as u64`: overflows at 2^28 entries
+example : (WExpr.cast (.mul (.var 1 32) (.lit 16 32)) 64).eval (WExpr.envOf [0, 268435456]) = none := by decide +kernel
+example : (WExpr.cast (.mul (.var 1 32) (.lit 16 32)) 64).eval (WExpr.envOf [0, 268435455]) = some (4294967280, 64) := by decide +kernel
+example : paddingRequiredW.eval (WExpr.envOf [4294967295]) = some (1, 32) := by decide +kernel
 
 /-! ### `Header::clear` / `Header::new_empty` (header.rs): the modified-in-memory values are instances -/
 
